@@ -216,3 +216,21 @@ Proof.
   unfold alias_field. destruct v as [[z|s]|e|z|b]; try reflexivity.
   destruct (mem_str k REGS); [destruct (assoc_str s consts)|]; reflexivity.
 Qed.
+
+(* Arithmetic.eval: the expression text goes to the builtin eval AS WRITTEN, with no builtins and with exactly the environment the caller
+   hands in; the position of the item plays no part (an arithmetic expression is not position relative: Proofs/Stable.v, Monotone.v
+   eeval_pos_indep rest on it -- the model's `EArith a` is evaluated by `aeval get a` whatever the position); SyntaxError / TypeError /
+   anything else become AssemblerError at the line; the result must be an int; a quoted single character is its code point *)
+Definition arithmetic_eval_from_source_stmt : Prop :=
+  ae_uses_position = false /\
+  ae_eval_args = ["self.expr"; "{'__builtins__': None}"; "env"]%string /\
+  ae_try_body = ["result = eval(self.expr, {'__builtins__': None}, env)"]%string /\
+  ae_handlers = ["SyntaxError -> AssemblerError"; "TypeError -> AssemblerError"; "bare -> AssemblerError"]%string /\
+  ae_int_tests = ["type(result) != int"]%string /\ ae_returns = "return result"%string /\
+  ae_statements = ["If"; "Try"; "If"; "Return"]%string /\
+  List.length ae_char_branch = 5%nat /\
+  (forall l p p' has get a, eeval relocate_hi relocate_lo l p has get (EArith a) = eeval relocate_hi relocate_lo l p' has get (EArith a)) /\
+  (forall l p has get a, eeval relocate_hi relocate_lo l p has get (EArith a) =
+                         match aeval get a with Some v => POk v | None => PErr (PAsm l) end).
+Lemma arithmetic_eval_from_source : arithmetic_eval_from_source_stmt.
+Proof. repeat (split; [reflexivity|]). split; intros; reflexivity. Qed.
